@@ -7,6 +7,24 @@ CLAIMED = {
  "C01": dict(engine="E1", technique="explicit-state BFS over API histories on the real code vs reference map",
    text="Bounded exhaustive refinement check: every call history up to the stated depth over a collision-forcing alphabet, under 8 storage configurations, is executed on the real package (over the in-memory file system) and compared step by step with a reference map; complete read sweep after every history.",
    note="Bounded by alphabet, depth and <=3 live objects; file system, clock and uuid generator are models owned by the harness (DESIGN 2.3).", ref="6/C01"),
+ "C02": dict(engine="E1", technique="explicit-state BFS; exhaustive query sweep per state vs linear-scan reference",
+   text="In every state reached by BFS over a contents alphabet (ties, in-place updates, deletions, reloads) every field path x operator x probe and all And/Or trees over an atom menu are evaluated on the real index code and compared with a linear scan of the reference model; queries must leave the handle state unchanged.",
+   note="Probe values come from per-type tables with extremes, not the whole 64-bit domain; NaN excluded.", ref="6/C02"),
+ "C03": dict(engine="E1", technique="explicit-state BFS over key-collision histories vs reference",
+   text="Every history up to the depth over an alphabet specialised to unique-key collisions (case variants, values differing beyond 2^53, released keys, batches, reopen/abandon) decides accept/reject exactly like the reference, in both directions, and the pairwise-distinct invariant holds in every reached state.",
+   note="Two unique fields (string+upper, int64); 5 key classes.", ref="6/C03"),
+ "C04": dict(engine="E1", technique="explicit-state BFS; differential observation before/after reopen in every state",
+   text="In every reached state the complete observation vector (reads, all searches with order, AssignIndex, And/Or pairs) is compared before and after Close+Open, and in synchronous configurations after abandoning the handle; reopen is also an alphabet letter so later calls keep refining the reference.",
+   note="Value tables include 2^53+1, MaxInt64, MaxUint64 and ns timestamps.", ref="6/C04"),
+ "C12": dict(engine="E1", technique="exhaustive history enumeration; differential between configurations",
+   text="Every history up to the depth is executed under the reference configuration and under every other configuration (quick: pairwise-covering 7, thorough: full product) and the normalised observation vectors, including error outcomes of ill-formed queries and Exist, must be identical.",
+   note="Result order is ignored (an index may change order).", ref="6/C12"),
+ "C13": dict(engine="E1", technique="explicit-state BFS; exhaustive ordered-query menu per state",
+   text="In every reached state every single comparison and And-chain ending on an indexed field is checked for order, Reverse, all interesting Limits, One and terminal-call independence, plus AssignIndex for every indexed field.",
+   note="Ties are produced by the value classes; tie order itself is not constrained.", ref="6/C13"),
+ "C20": dict(engine="E1", technique="explicit-state BFS x query menu x all write sequences <= 2",
+   text="For every reached state, every query of the menu is evaluated and kept while every write sequence of length <= 2 is applied; Collect/Assign/One/Len on the kept value may only yield objects matched at evaluation time, once each.",
+   note="Write sequences of length <= 2; depth of the base state as stated in evidence.", ref="6/C20"),
 }
 
 NOT_YET = {}
